@@ -14,7 +14,7 @@ from world import NBUILTIN, make_world
 use_repo()
 
 
-def gen_graph_scenario(rng: random.Random, nnodes=None, nuser=None):
+def gen_graph_scenario(rng: random.Random, nnodes=None, nuser=None, recurse_bias=0.2):
     w = make_world(rng, nuser=nuser or rng.randint(2, 5))
     classes = list(range(NBUILTIN, w.n))
     ndefs = rng.randint(3, 8)
@@ -24,9 +24,9 @@ def gen_graph_scenario(rng: random.Random, nnodes=None, nuser=None):
         c = rng.choice(classes + [0])
         body = ["ret"]
         r = rng.random()
-        if r < 0.25:
+        if r < 0.25 * (1 - recurse_bias):
             body = ["callNext", [["p", 0]]]
-        elif r < 0.45:
+        elif r < 0.25 * (1 - recurse_bias) + recurse_bias:
             body = ["recurse", [["c", rng.randrange(len(args))]]]
         defs.append({"id": i, "code": 100 + i, "isMethod": False, "prio": rng.choice([0, 0, 0, 1]), "params": [{"name": 0, "kind": "pk", "req": True, "ty": ["cls", c]}], "body": body})
     ops = [["create", [], False]]
@@ -42,6 +42,12 @@ def gen_graph_scenario(rng: random.Random, nnodes=None, nuser=None):
             ops.append(["create", ms, rng.random() < 0.5])
             derives[nn] = set(ms) | set().union(*[derives[m] for m in ms]) if ms else set()
             nn += 1
+            # like `@f.variant def f(...)`: the child's first own method is the function that also named its parent
+            # (related functions then share their short name)
+            if ms and rng.random() < 0.4:
+                firsts = [op[2] for op in ops if op[0] == "reg" and op[1] == ms[0]]
+                if firsts:
+                    ops.append(["reg", nn - 1, firsts[0]])
         elif r < 0.28 and nn >= 2:
             n = rng.randrange(nn)
             cands = [m for m in range(nn) if m != n and n not in derives[m] and m not in derives[n]]
